@@ -17,3 +17,26 @@ def parse_action_coverage(r):
             cov[m.group(1)] = (max(od, d), max(og, g))
     r.coverage.update(cov)
     return r
+
+
+def dedupe_by_prefix(behs):
+    """TLC's simulator evaluates the emitting invariant on every candidate of the last step: keep
+    one behaviour per distinct prefix (all steps but the last)."""
+    import json
+    seen, out = set(), []
+    for b in behs:
+        key = json.dumps(b["h"][:-1], sort_keys=True)
+        if key in seen:
+            continue
+        seen.add(key)
+        out.append(b)
+    return out
+
+
+def cfg_constants(tla_dir, cfg):
+    import os
+    txt = open(os.path.join(tla_dir, cfg)).read()
+    body = txt.split("CONSTANTS", 1)[1]
+    for stop in ("ACTION_CONSTRAINT", "CONSTRAINT", "VIEW", "INVARIANT"):
+        body = body.split(stop, 1)[0]
+    return [l.strip() for l in body.splitlines() if l.strip()]
